@@ -941,9 +941,10 @@ def add_numpy_gadget(rnd, spec):
     spec.setdefault('gadget', []).extend([m1, m2, tot])
 
 
-def add_poison_gadget(rnd, spec):
+def add_poison_gadget(rnd, spec, bad_forms=None):
     """P names a cell on a sheet the workbook does not have (next to an ordinary reference), Q
-    reads P and another formula: building the graph for Q fails half way.  Returns Q."""
+    reads P and another formula: building the graph for Q fails half way.  Returns Q.
+    bad_forms: other things that cannot be compiled ('{c}' = a cell of the sheet)"""
     sheet = next(s_ for s_ in spec['sheets'] if s_ != spec.get('data_sheet'))
     dag = Dag(spec)
     local = [a for a in dag.order if split_addr(a)[0] == sheet and 'cse' not in dag.cell[a]]
@@ -952,7 +953,8 @@ def add_poison_gadget(rnd, spec):
     forms = [a for a in local if is_formula_cell(dag.cell[a])] or local
     c1, f1 = rnd.choice(local), rnd.choice(forms)
     p_, q_ = mk(sheet, 36, 1), mk(sheet, 36, 2)
-    bad = rnd.choice(('ROW(Missing!A5)', 'ROW(Missing!A5)', 'SUM((A1):(C3))'))
+    bad = rnd.choice(bad_forms or ('ROW(Missing!A5)', 'ROW(Missing!A5)', 'SUM((A1):(C3))'))
+    bad = bad.replace('{c}', split_addr(c1)[1])
     # (a sheet that does not exist / a formula pycel's parser gives up on)
     spec['cells'].append({'a': p_, 'f': f'={bad}+{split_addr(c1)[1]}', 'p': [c1],
                           'd': [], 'poison': True})
